@@ -877,7 +877,7 @@ class Extractor:
             if a is None:
                 raise Undecided('lost anchor: `%s` in %s' % (needle, where))
             e = a + len(nt) - 1
-            if toks[a - 1].text not in ('(', ',', '=') or toks[e + 1].text not in (')', ',', ';'):
+            if toks[a - 1].text not in ('(', ',', '=', ':') or toks[e + 1].text not in (')', ',', ';'):
                 raise Undecided('@opaque_expr `%s` in %s is not a complete argument / initialiser expression' % (needle, where))
             if '?' in nt or 'return' in nt or not re.match(r'^opaque__\w+\([^;]*\)$', repl):
                 raise Undecided('@opaque_expr `%s` in %s: unsupported shape' % (needle, where))
@@ -1243,6 +1243,11 @@ class Extractor:
         else:
             # drop field / variant attributes (D1)
             text = self._drop_inner_attrs(text, res.drops, '%s %s' % (kind, d['name']))
+        if d.get('pubfields'):
+            # D4 (fields): `pub(crate)` fields become `pub` so that open spec functions of the unit may read them
+            n_f = len(re.findall(r'pub\s*\(\s*(?:crate|super)\s*\)', text[4:]))
+            text = text[:4] + re.sub(r'pub\s*\(\s*(?:crate|super)\s*\)', 'pub', text[4:])
+            res.drops.append('D4 %d restricted field visibilities of %s %s -> pub' % (n_f, kind, d['name']))
         mvis = re.match(r'pub\s*\(\s*(crate|super)\s*\)', text)
         if mvis:
             # D4: restricted visibility of an extracted type becomes `pub` (one flat module; Verus wants datatypes with
